@@ -47,6 +47,17 @@ use zcash_protocol::{
     local_consensus::LocalNetwork,
 };
 
+use zcash_client_sqlite::pool_migration::orchard_ironwood::PoolMigrations;
+use zcash_pool_migration::denomination::DenominationPlan;
+use zcash_pool_migration::engine::{
+    MigrationLockOwner, MigrationState, MigrationStatus, MigrationTransaction, MigrationTransferId, MigrationTxKind,
+    MigrationTxState, PoolMigrationRead, PoolMigrationWrite, ProvedTransaction,
+};
+use zcash_pool_migration::preparation::{PrepInput, PrepOutput, PrepTransaction, PreparationPlan};
+use zcash_pool_migration::satisfiability::ReplanThreshold;
+use zcash_pool_migration::scheduling::AnchorBucketInterval;
+use zcash_protocol::value::Zatoshis;
+
 type Net = LocalNetwork;
 
 thread_local! { static TIMES: std::cell::RefCell<BTreeMap<&'static str, (u64, u128)>> = std::cell::RefCell::new(BTreeMap::new()); }
@@ -237,6 +248,13 @@ struct Probe {
     total_rows: u32,
     /// the writer's connection is inside a transaction, as far as the events emitted so far say
     in_txn: bool,
+    /// the running statement is BEGIN / COMMIT / ...; the autocommit flag when it started
+    cur_ctl: bool,
+    cur_rollback: bool,
+    /// the commit hook fired inside the running statement (COMMIT, or a write in autocommit mode)
+    cur_committed: bool,
+    cur_auto: bool,
+    skipped_ctl: bool,
     /// raw handle of the writer's connection (only `sqlite3_get_autocommit` is called on it)
     handle: usize,
 }
@@ -249,6 +267,11 @@ impl Probe {
             self.flush();
             self.ev.push(json!({"a": "wbegin"}));
             self.in_txn = true;
+        } else if autocommit && self.in_txn {
+            // closed, and neither hook fired: a transaction that wrote nothing
+            self.flush();
+            self.ev.push(json!({"a": "wend"}));
+            self.in_txn = false;
         }
     }
 
@@ -276,6 +299,10 @@ impl Probe {
             self.stmts.push(StmtRec { step: self.steps, write: !readonly && !ctl, sql: sql.split_whitespace().collect::<Vec<_>>().join(" ").chars().take(110).collect() });
         }
         self.sync_txn(autocommit);
+        self.cur_auto = autocommit;
+        self.cur_rollback = head.starts_with("ROLLBACK");
+        self.cur_committed = false;
+        self.cur_ctl = head.starts_with("BEGIN") || head.starts_with("COMMIT") || head.starts_with("END") || head.starts_with("ROLLBACK") || head.starts_with("RELEASE") || head.starts_with("SAVEPOINT");
         if head.starts_with("BEGIN") || head.starts_with("COMMIT") || head.starts_with("END") || head.starts_with("ROLLBACK") || head.starts_with("RELEASE") || head.starts_with("SAVEPOINT") {
             // transaction control: seen through the autocommit flag and the commit / rollback hooks
         } else {
@@ -310,6 +337,18 @@ impl Probe {
         self.steps += 1;
         if self.fault_at != 0 && self.steps == self.fault_at && !self.fired {
             let auto = self.autocommit_now();
+            if self.cur_committed || (self.cur_ctl && (auto != self.cur_auto || self.cur_rollback)) {
+                // (a) the last step of a BEGIN, of a COMMIT or of a write in autocommit mode that has already
+                // taken effect (for the latter two: the commit hook fired inside this statement): SQLite would
+                // report an error for a statement that ran to completion (an artefact of the progress handler,
+                // not a failure such a statement can have); (b) a ROLLBACK: it is the recovery from
+                // the error itself (rusqlite's `Transaction::drop` cannot report its failure; a connection
+                // whose ROLLBACK was interrupted stays inside the transaction, whatever the wallet does).
+                // No fault is injected at these steps.
+                self.fired = true;
+                self.skipped_ctl = true;
+                return false;
+            }
             self.sync_txn(auto);
             self.flush();
             if self.observe_at_fault {
@@ -362,6 +401,7 @@ fn install(conn: &Connection, probe: &Arc<Mutex<Probe>>) {
             }
             g.ev.push(json!({"a": "wcommit"}));
             g.in_txn = false;
+            g.cur_committed = true;
         }
         false
     }));
@@ -438,6 +478,8 @@ struct State {
     tip: u32,
     /// notes locked in the pre-state (owner PRE_OWNER)
     locked: Vec<u32>,
+    /// a pool migration is persisted in the pre-state (variant 1: its preparation is mined in a scanned block)
+    has_migration: bool,
 }
 
 const PRE_OWNER: [u8; 32] = [0x50; 32];
@@ -495,7 +537,7 @@ fn output_ref(chain: &Chain, note: u32) -> OutputRef {
 
 /// Builds a wallet database file by a short history on the harness chain: `blocks` blocks with
 /// receipts in every pool, spends with change and foreign traffic; the first `scan` are scanned.
-fn build_state(dir: &Path, name: &str, seed: u64, ironwood: bool, wal: bool, blocks: u32, scan: u32) -> State {
+fn build_state(dir: &Path, name: &str, seed: u64, ironwood: bool, wal: bool, blocks: u32, scan: u32, migration: bool) -> State {
     let mut rng = ChaChaRng::seed_from_u64(seed);
     let net = network(ironwood);
     let file = dir.join(format!("{name}.db"));
@@ -560,7 +602,7 @@ fn build_state(dir: &Path, name: &str, seed: u64, ironwood: bool, wal: bool, blo
             scan_cached_blocks(&net, &Source(&chain), &mut db, BlockHeight::from(base + 1), &st, scan as usize).expect("scan");
         }
     }
-    let mut st = State { name: name.to_string(), file: file.clone(), net, wal, chain, account, base, scanned_to: base + scan, tip, locked: vec![] };
+    let mut st = State { name: name.to_string(), file: file.clone(), net, wal, chain, account, base, scanned_to: base + scan, tip, locked: vec![], has_migration: migration };
     // two notes are locked already
     let pre: Vec<u32> = lockable_notes(&st).into_iter().rev().take(2).collect();
     if pre.len() == 2 {
@@ -568,9 +610,125 @@ fn build_state(dir: &Path, name: &str, seed: u64, ironwood: bool, wal: bool, blo
         wdb(&mut conn, net, seed).lock_outputs(&refs, LockOwner::new(PRE_OWNER), BlockHeight::from(tip + 20)).expect("pre-state locks");
         st.locked = pre;
     }
+    if migration {
+        // an Orchard note reserved by the migration's proved preparation, and the migration itself
+        let orch: Vec<u32> = lockable_notes(&st).into_iter().filter(|n| st.chain.notes[n].pool == Pool::Orchard && !st.locked.contains(n)).collect();
+        if let Some(n) = orch.first() {
+            let r = output_ref(&st.chain, *n);
+            wdb(&mut conn, net, seed).lock_outputs(&[r], LockOwner::new(MIG_TOKEN), BlockHeight::from(tip + 50)).expect("migration lock");
+            st.locked.push(*n);
+        }
+        let ms = migration_state(base, 1, base + scan - 1);
+        PoolMigrations::for_account(net, clock(), &mut conn, account).and_then(|mut m| m.replace_migration(&ms)).expect("persist migration");
+        let back = PoolMigrations::for_account(net, clock(), &conn, account).and_then(|m| m.get_migration()).expect("read migration");
+        assert!(back.is_some());
+    }
     drop(conn);
     assert!(side_files(&file).iter().all(|p| !p.exists()), "pre-state database closed cleanly");
     st
+}
+
+const MIG_TOKEN: [u8; 32] = [0x77; 32];
+
+fn zat(v: u64) -> Zatoshis {
+    Zatoshis::from_u64(v).expect("amount")
+}
+
+/// A committed Orchard -> Ironwood migration of three transactions (one preparation, two transfers
+/// depending on it), as the store persists it. `variant` 0: the preparation is proved (holds the note
+/// lock MIG_TOKEN), transfers signed; 1: preparation mined at `mined`, first transfer broadcast.
+fn migration_state(base: u32, variant: u8, mined: u32) -> MigrationState {
+    let cv = [200_000u64, 100_000];
+    let total: u64 = cv.iter().sum();
+    let denominations = DenominationPlan::from_stored_parts(
+        cv.iter().copied().map(zat).collect(),
+        zat(15_000),
+        Some(zat(777)),
+        zat(30_000),
+        zat(total + 15_000 * cv.len() as u64 + 30_777),
+        zat(total),
+    )
+    .expect("consistent stored plan");
+    let preparation = PreparationPlan::from_parts(
+        vec![vec![PrepTransaction::from_parts(
+            vec![PrepInput::Wallet { index: 0, value: zat(total + 50_000) }],
+            vec![PrepOutput::Funding(zat(total)), PrepOutput::Change(zat(777))],
+        )]],
+        vec![(1, zat(115_000))],
+    );
+    let tid = |i: u32| MigrationTransferId::new(i);
+    let txid = |i: u8| TxId::from_bytes([0xA0 + i; 32]);
+    let h = |d: u32| BlockHeight::from(base + d);
+    let mut txs = vec![];
+    for i in 0..3u32 {
+        let kind = if i == 0 { MigrationTxKind::Preparation { layer: 0, index: 0 } } else { MigrationTxKind::Transfer { crossing: (i - 1) as usize } };
+        let state = match (variant, i) {
+            (0, 0) => MigrationTxState::Proved,
+            (0, _) => MigrationTxState::Signed,
+            (_, 0) => MigrationTxState::Mined { txid: txid(0), height: BlockHeight::from(mined) },
+            (_, 1) => MigrationTxState::Broadcast { txid: txid(1) },
+            _ => MigrationTxState::Proved,
+        };
+        let lock = match state {
+            MigrationTxState::Signed | MigrationTxState::AwaitingSignature => None,
+            // the proved, never-broadcast row holds the note reservation MIG_TOKEN
+            MigrationTxState::Proved => Some(MigrationLockOwner::from_bytes(MIG_TOKEN)),
+            _ => Some(MigrationLockOwner::from_bytes([0x78 + i as u8; 32])),
+        };
+        txs.push(MigrationTransaction::from_parts(
+            tid(i),
+            kind,
+            vec![0xB0 + i as u8; 40 + i as usize],
+            if i == 0 { vec![] } else { vec![tid(0)] },
+            h(40 + i),
+            h(200 + i),
+            Some(h(10)),
+            txid(i as u8),
+            state,
+            lock,
+            None,
+            vec![[i as u8 + 1; 32], [0x40 + i as u8; 32]],
+            None,
+        ));
+    }
+    MigrationState::from_parts(MigrationStatus::InProgress, denominations, preparation, txs, AnchorBucketInterval::ZIP_318, ReplanThreshold::DEFAULT)
+}
+
+fn mig_ops(s: &State) -> Vec<OpDef> {
+    let mut v = vec![];
+    let base = s.base;
+    let mined = s.scanned_to - 1;
+    // persist a (new or changed) migration: the whole record in one transaction
+    v.push(opdef("mig_replace", move |c, s| {
+        let st = migration_state(base, if s.has_migration { 0 } else { 1 }, mined);
+        cls(
+            guarded(|| PoolMigrations::for_account(s.net, clock(), &mut *c, s.account).and_then(|mut m| m.replace_migration(&st))),
+            |_| String::new(),
+        )
+    }));
+    if s.has_migration {
+        v.push(opdef("mig_update_tx", move |c, s| {
+            let new_state = MigrationTxState::Mined { txid: TxId::from_bytes([0xA1; 32]), height: BlockHeight::from(mined) };
+            cls(
+                guarded(|| PoolMigrations::for_account(s.net, clock(), &mut *c, s.account).and_then(|mut m| m.update_transaction(MigrationTransferId::new(1), new_state))),
+                |_| String::new(),
+            )
+        }));
+        v.push(opdef("mig_cancel", move |c, s| {
+            cls(guarded(|| PoolMigrations::for_account(s.net, clock(), &mut *c, s.account).and_then(|mut m| m.cancel_migration())), |o| format!("{o:?}"))
+        }));
+        v.push(opdef("mig_store_proved", move |c, s| {
+            let mut st = migration_state(base, 1, mined);
+            cls(
+                guarded(|| {
+                    PoolMigrations::for_account(s.net, clock(), &mut *c, s.account)
+                        .and_then(|mut m| m.store_proved_transaction(&mut st, ProvedTransaction::from_parts(MigrationTransferId::new(2), vec![0xC1; 64])))
+                }),
+                |_| String::new(),
+            )
+        }));
+    }
+    v
 }
 
 fn scan_op(n: usize) -> OpDef {
@@ -607,7 +765,21 @@ fn lockable_notes(s: &State) -> Vec<u32> {
 }
 
 fn ops_for(s: &State) -> Vec<OpDef> {
+    if s.has_migration {
+        // the wallet with a migration in flight: the store's own writes, and the wallet writes that cascade into it
+        let mut v = mig_ops(s);
+        v.push(scan_op(3));
+        v.extend(ops_common(s).into_iter().filter(|o| ["truncate", "delete_account", "clear_locks", "rewind"].contains(&o.name.as_str())));
+        return v;
+    }
     let mut v = vec![scan_op(1), scan_op(3), scan_op(12)];
+    v.extend(mig_ops(s).into_iter().filter(|_| s.wal));
+    v.extend(ops_common(s));
+    v
+}
+
+fn ops_common(s: &State) -> Vec<OpDef> {
+    let mut v = vec![];
     v.push(opdef("tip_up", |c, s| {
         let h = s.tip + 7;
         cls(guarded(|| wdb(c, s.net, 12).update_chain_tip(BlockHeight::from(h))), |_| String::new())
@@ -673,6 +845,13 @@ fn ops_for(s: &State) -> Vec<OpDef> {
             .map(|i| CommitmentTreeRoot::from_parts(BlockHeight::from(s.base + 1 + i), sapling::Node::empty_root(incrementalmerkletree::Level::from(16 + i as u8))))
             .collect();
         cls(guarded(|| wdb(c, s.net, 21).put_sapling_subtree_roots(1, &roots)), |_| String::new())
+    }));
+    // roots that would leave a gap after the shards the wallet has: refused (SubtreeDiscontinuity)
+    v.push(opdef("subtree_roots_gap", |c, s| {
+        let roots: Vec<CommitmentTreeRoot<sapling::Node>> = (0..2u32)
+            .map(|i| CommitmentTreeRoot::from_parts(BlockHeight::from(s.base + 1 + i), sapling::Node::empty_root(incrementalmerkletree::Level::from(16 + i as u8))))
+            .collect();
+        cls(guarded(|| wdb(c, s.net, 21).put_sapling_subtree_roots(5, &roots)), |_| String::new())
     }));
     v.push(opdef("subtree_roots_orchard", |c, s| {
         use incrementalmerkletree::Hashable;
@@ -786,6 +965,11 @@ impl Runner<'_> {
             rows_before_fault: 0,
             total_rows: 0,
             in_txn: false,
+            cur_ctl: false,
+            cur_rollback: false,
+            cur_committed: false,
+            cur_auto: true,
+            skipped_ctl: false,
             handle: unsafe { conn.handle() } as usize,
         }));
         self.out.emit(&json!({"a": "opstart", "op": op.name, "mode": mode, "fault": fault_at}));
@@ -794,7 +978,11 @@ impl Runner<'_> {
         uninstall(&conn);
         let auto = conn.is_autocommit();
         let mut g = probe.lock().unwrap();
+        g.sync_txn(auto);
         g.flush();
+        if g.skipped_ctl {
+            g.fired = false;
+        }
         if crash {
             g.crash_image("after");
         }
@@ -866,7 +1054,7 @@ impl Runner<'_> {
 
 /// Fault positions for one operation: statement boundaries (the first step inside each statement and
 /// the last step of the one before), the steps around the COMMIT, and seeded interior steps.
-fn positions(ex: &Exec, quick: bool, rng: &mut ChaChaRng) -> Vec<u64> {
+fn positions(ex: &Exec, opname: &str, quick: bool, rng: &mut ChaChaRng) -> Vec<u64> {
     let n = ex.steps;
     let mut set = BTreeSet::new();
     let mut bw: Vec<u64> = vec![];
@@ -874,7 +1062,9 @@ fn positions(ex: &Exec, quick: bool, rng: &mut ChaChaRng) -> Vec<u64> {
     for st in &ex.stmts {
         if st.write { bw.push(st.step + 1) } else { br.push(st.step + 1) }
     }
-    let (cap_w, cap_r, interior) = if quick { (90, 40, 64) } else { (2500, 1500, 1500) };
+    // heavy operations (a scan re-hashes note commitment trees: 50-130 ms a run) get fewer positions in quick
+    let heavy = opname.starts_with("scan");
+    let (cap_w, cap_r, interior) = if !quick { (2500, 1500, 1500) } else if heavy { (45, 15, 40) } else { (90, 40, 64) };
     bw.shuffle(rng);
     br.shuffle(rng);
     for k in bw.into_iter().take(cap_w).chain(br.into_iter().take(cap_r)) {
@@ -920,7 +1110,7 @@ fn run_group(rn: &mut Runner, s: &State, op: &OpDef, quick: bool, rng: &mut ChaC
     rn.exec(s, op, "plain", 0, false, false, &pre);
     let ks: Vec<u64> = match only_k {
         Some(k) => vec![k],
-        None => positions(&reference, quick, rng),
+        None => positions(&reference, &op.name, quick, rng),
     };
     for (i, k) in ks.iter().enumerate() {
         rn.restore(s, true);
@@ -951,8 +1141,9 @@ fn main() {
     let t0 = std::time::Instant::now();
 
     let states = vec![
-        build_state(&work, "A", seed.wrapping_mul(1000) + 1, false, false, 30, 10),
-        build_state(&work, "B", seed.wrapping_mul(1000) + 2, true, true, 28, 12),
+        build_state(&work, "A", seed.wrapping_mul(1000) + 1, false, false, 30, 10, false),
+        build_state(&work, "B", seed.wrapping_mul(1000) + 2, true, true, 28, 12, false),
+        build_state(&work, "M", seed.wrapping_mul(1000) + 3, true, false, 20, 14, true),
     ];
     let shard: (usize, usize) = std::env::var("C02_SHARD").ok().and_then(|s| {
         let (a, b) = s.split_once('/')?;
@@ -975,7 +1166,16 @@ fn main() {
     };
     let mut groups = vec![];
     // static assignment of groups to shards, heaviest first (a scan costs ~40 ms of note-commitment hashing)
-    let weight = |op: &str| -> u64 { if op.starts_with("scan") { 10 } else { 1 } };
+    let weight = |op: &str| -> u64 {
+        match op {
+            "scan12" => 50,
+            "scan3" => 28,
+            "scan1" => 20,
+            "create_account" | "import_hd" | "import_ufvk" => 16,
+            "delete_account" | "rewind_reset_birthday" | "truncate_chain_state" | "truncate" | "rewind" => 7,
+            _ => 2,
+        }
+    };
     let mut all: Vec<(usize, String)> = vec![];
     for (si, s) in states.iter().enumerate() {
         for op in ops_for(s) {
